@@ -269,6 +269,10 @@ def main(argv=None):
                             entry = k
                 if entry:
                     known_lines.append((entry, o))
+                elif o['class'] == 'assigns' and re.fullmatch(r'Check that (?!g_|verif_)[A-Za-z_]\w* is assignable', o['description']):
+                    # a plain local variable written inside a loop whose frame does not list it: the body was
+                    # restructured (new loop-carried local), which the loop contract cannot follow - undecided, not a violation
+                    undecided.append((uname, 'loop-frame-changed', '%s: %s' % (o['name'], o['description'])))
                 else:
                     violations.append((rec, o))
             else:
